@@ -23,7 +23,7 @@ def _logger():
 
 def gen_e2e_cases(rng, tier):
     from harness.props import C12 as P
-    n = {'quick': 60, 'thorough': 600, 'search': 300}[tier]
+    n = {'quick': 60, 'thorough': 500, 'search': 100}[tier]
     cases = []
     kinds = ['double', 'int', 'scaled', 'bool', 'enum', 'string', 'blob', 'array', 'tuple', 'struct']
     for k in range(n):
